@@ -211,3 +211,33 @@ __CPROVER_assigns(LT(layout)->minD, __CPROVER_object_whole(LT(layout)->G[0]), __
 ;
 void h_cpl_tail(void) { void *l, *es, *el; w_cpl_tail(l, es, el); VERIF_CANARY; }
 #endif
+
+/* ------------------------------------------------------------ dijkstra's main loop: every entry of the output row is written.
+ * Callers (johnsons) hand in rows from a bare `new T[n]`; an entry the loop does not write keeps whatever the heap block held, and
+ * computePathLengths then takes garbage for a path length (C17) that differs from run to run (C20). */
+#if defined(JOB_dml)
+/* BOUNDED plain harness: 3 nodes; the heap hands the nodes out once each, in an arbitrary order, and is empty after the last one */
+struct PACKED SNode { unsigned id; long long d; void *p; struct vec neighbours; struct vec nweights; void *qnode; };
+static struct SNode node[3]; static _Bool out[3]; static long long val[3]; static unsigned left3;
+_Bool w_heap_isEmpty(void *h) { return left3 == 0; }
+void *w_heap_extractMin(void *h)
+{
+  unsigned k; __CPROVER_assume(k < 3 && !out[k]);
+  __CPROVER_assert(left3 > 0, "SPEC extractMin on a non-empty queue");
+  out[k] = 1; left3--; val[k] = node[k].d;             /* the distance the node has when it leaves the queue */
+  return &node[k];
+}
+void w_decreaseKey(void *heap, void *qnode, void *val_) { }
+void w_relax_visit(void *u, unsigned i) { }             /* the relaxation (job dijkstra_relaxation_step) does not write the output row */
+void w_dijkstra_main_loop(void *heap, long long *d, unsigned long K);
+void h_dml(void)
+{
+  struct SNode nd[3]; long long d[3]; char heap[8];
+  for (int i = 0; i < 3; ++i) { node[i] = nd[i]; node[i].id = i; out[i] = 0; }
+  left3 = 3;
+  w_dijkstra_main_loop(heap, d, 0);
+  for (int i = 0; i < 3; ++i)
+    __CPROVER_assert(out[i] && d[i] == val[i], "SPEC every node's entry of the output row holds the distance it had when it left the queue (the sentinel if never reached)");
+  VERIF_CANARY;
+}
+#endif
